@@ -12,7 +12,7 @@ from pv.props.common import Skolems, idx_params, in_range, sk_params, take, teq
 from pv.sem.alg import NumAlg, TermAlg, alias_map, num_close
 
 
-def value_obs(prefix, outputs, kinds, numeric_data, nsk=6, timeout=120, info=None, max_obs=None):
+def value_obs(prefix, outputs, kinds, numeric_data, nsk=6, timeout=120, info=None, max_obs=None, nonneg=()):
     """outputs: name -> (shape, mk_a, mk_b) with mk_x(alg) -> callable(idx) -> value.
     One obligation per output: for all idx in shape: a(idx) == b(idx) in the
     term algebra.  Replay: numeric evaluation of both sides (and nothing else is
@@ -21,7 +21,7 @@ def value_obs(prefix, outputs, kinds, numeric_data, nsk=6, timeout=120, info=Non
     for name, (shape, mk_a, mk_b) in list(outputs.items())[:max_obs]:
         shape = tuple(int(s) for s in shape)
         nd = len(shape)
-        alg = TermAlg(kinds, aliases=alias_map(numeric_data))
+        alg = TermAlg(kinds, aliases=alias_map(numeric_data), nonneg=nonneg)
         fa, fb = mk_a(alg), mk_b(alg)
         params = idx_params(nd) + sk_params(nsk)
 
